@@ -1002,7 +1002,7 @@ class Lower:
         rec = norm_type((n['type'].get('desugaredQualType') or n['type']['qualType']))
         ctort = n.get('ctorType', {}).get('qualType', '')
         # copy / move construction of a value: C struct copy (unless the unit models the constructor explicitly)
-        if ('ctor:%s/1' % rec) not in self.stubs and len(ins) == 1 and re.match(r'^void \((const )?[^,]*(&&|&)\)( noexcept(\(\w+\))?)?$', ctort):
+        if ('ctor:%s/1' % rec) not in self.stubs and len(ins) == 1 and self.is_copy_sig(ctort):
             pt = norm_type(self.param_types_from_sig(ctort)[0])
             if strip_ptr(pt) == rec or strip_ptr(pt).split('::')[-1] == rec.split('::')[-1]:
                 return self.E(ins[0])
@@ -1045,6 +1045,11 @@ class Lower:
             argl.append(x)
         return self.emit_call(st, argl, n)
     e_CXXTemporaryObjectExpr = e_CXXConstructExpr
+
+    def is_copy_sig(self, ctort):
+        """constructor type with exactly one parameter of reference type"""
+        ps = self.param_types_from_sig(ctort)
+        return len(ps) == 1 and ps[0].rstrip().endswith('&') and ctort.startswith('void (')
 
     def ctor_for(self, recq, want):
         for cname, info in self.fn_info.items():
@@ -1373,7 +1378,7 @@ class Lower:
             rec = norm_type(core['type'].get('desugaredQualType') or core['type']['qualType'])
             r = self.find_record(rec)
             ctort = core.get('ctorType', {}).get('qualType', '')
-            iscopy = len(self.inner(core)) == 1 and re.match(r'^void \((const )?[^,]*(&&|&)\)( noexcept(\(\w+\))?)?$', ctort) and \
+            iscopy = len(self.inner(core)) == 1 and self.is_copy_sig(ctort) and \
                 strip_ptr(norm_type(self.param_types_from_sig(ctort)[0])).split('::')[-1] == rec.split('::')[-1]
             if r and not iscopy:
                 cname, cd = self.ctor_for(r, ctort)
@@ -1645,7 +1650,7 @@ class Lower:
         if r and core.get('kind') == 'CXXConstructExpr':
             ctort = core.get('ctorType', {}).get('qualType', '')
             cins = self.inner(core)
-            if len(cins) == 1 and re.match(r'^void \((const )?[^,]*(&&|&)\)( noexcept(\(\w+\))?)?$', ctort) and \
+            if len(cins) == 1 and self.is_copy_sig(ctort) and \
                     strip_ptr(norm_type(self.param_types_from_sig(ctort)[0])).split('::')[-1] == r.split('::')[-1]:
                 return '    %s = %s;\n' % (lhs, self.E(cins[0]))      # defaulted copy/move construction: member-wise copy
             if not cins and not any(i['decl'].get('kind') == 'CXXConstructorDecl' and '::'.join(i['q'].split('::')[:-1]) == r and not params_of(i['decl']) for i in self.fn_info.values()):
